@@ -3,7 +3,6 @@ package props
 // NotApplicable lists the properties that are not claimed, with the reason. A property that has a
 // registered check is never listed here (the manifest generator enforces it).
 var NotApplicable = map[string]string{
-	"C04": "Linearizability of concurrent client histories under kill/restart/leader transfer is a property of executions across processes; no static argument in reach bounds the histories. Its code-visible ingredients (persist-before-send, reply on apply, ordering/filter rules) are decided under C03, C06, C07 and C11; none of them alone is a necessary condition specific to C04.",
 	"C08": "Conformance of replies and data to a Redis reference model for all command sequences is value-level behaviour (index arithmetic, score ties, reply formats). The shape-visible parts are decided elsewhere: repeated members inside one command under C09-N1, argument validation under C11.",
 }
 
